@@ -11,6 +11,16 @@ import RedisVerif.Props.C08
     R <key> <rv>                    → ok      (remote delta)
     REC <key> <rv>                  → ok      (recovered checkpoint value)
     SNAP                            → <n> (<key> <rv> ;)*   sorted by key code
+
+  node level (a `ShardedNode` = all shards of one ReplicatedShardedState):
+    NN <rid> <causal01> <nshards>   → ok          fresh node
+    NS <shard> <op as above>        → as above    one message to shard actor <shard>
+    NRECOVER <c> (<shard> <key> <rv>)^c <d> (<shard> <key> <rv>)^d → ok
+                                    `apply_recovered_state(Some(checkpoint), deltas)`; the checkpoint
+                                    entries come in the implementation's map iteration order (a
+                                    relation: the line carries the implementation's choice); the shard
+                                    given with each key is the routing function
+    NSNAP                           → <n> (<key> <rv> ;)*   all shards, sorted by key code
 -/
 namespace RedisVerif.Driver.C08
 open RedisVerif RedisVerif.Driver RedisVerif.Shard
@@ -57,5 +67,58 @@ def step (s : Shard) (line : String) : Shard × String :=
         | some dv => (s', s!"eff={b01 eff} delta {showRV dv}")
         | none => (s', s!"eff={b01 eff} none")
     | _ => (s, "bad-op")
+
+/-! ## node level -/
+
+structure DState where
+  s : Shard
+  nd : ShardedNode
+
+def DState.init : DState := { s := Shard.init 0 false, nd := [] }
+
+def entries (n : Nat) : P (List (Nat × Nat × RV)) :=
+  repeatP n (do let sh ← nat; let k ← strKey; let v ← rv; pure (sh, k, v))
+
+def insertKey (p : Nat × RV) : List (Nat × RV) → List (Nat × RV)
+  | [] => [p]
+  | q :: l => if p.1 ≤ q.1 then p :: q :: l else q :: insertKey p l
+
+def nstep (nd : ShardedNode) (line : String) : ShardedNode × String :=
+  match tokens line with
+  | ["NN", r, c, n] =>
+    match r.toNat?, c.toNat?, n.toNat? with
+    | some rid, some cz, some n => (ShardedNode.init rid (cz != 0) n, "ok")
+    | _, _, _ => (nd, "bad-op")
+  | ["NSNAP"] =>
+    let all := (nd.flatMap (·.keys)).foldr insertKey []
+    (nd, " ".intercalate (toString all.length :: all.map (fun p => s!"{showKey p.1} {showRV p.2} ;")))
+  | "NS" :: sh :: rest =>
+    match sh.toNat? with
+    | some i =>
+      match nd[i]? with
+      | some s0 =>
+        let r := step s0 (" ".intercalate rest)
+        if r.2 == "bad-op" then (nd, "bad-op") else (nd.set i r.1, r.2)
+      | none => (nd, "bad-op")
+    | none => (nd, "bad-op")
+  | "NRECOVER" :: _ =>
+    match runP (do expect "NRECOVER"; let c ← nat; let ck ← entries c; let d ← nat; let ds ← entries d; pure (ck, ds)) line with
+    | some (ck, ds) =>
+      let table := (ck ++ ds).map (fun e => (e.2.1, e.1))
+      let route := fun k => match table.find? (fun q => q.1 == k) with | some q => q.2 | none => 0
+      (ShardedNode.recoverNode false route nd (ck.map (·.2)) (ds.map (·.2)), "ok")
+    | none => (nd, "bad-op")
+  | _ => (nd, "bad-op")
+
+def stepAll (d : DState) (line : String) : DState × String :=
+  match tokens line with
+  | t :: _ =>
+    if t == "NN" || t == "NS" || t == "NRECOVER" || t == "NSNAP" then
+      let r := nstep d.nd line
+      ({ d with nd := r.1 }, r.2)
+    else
+      let r := step d.s line
+      ({ d with s := r.1 }, r.2)
+  | [] => (d, "bad-op")
 
 end RedisVerif.Driver.C08
